@@ -262,6 +262,12 @@ func (c *hpCloser) Close() error { c.n++; return c.err }
 
 // call performs one operation of Helpers.tla.
 func (w *hpWorld) call(op []any) (obs hpObs, herr error) {
+	// A panic of the code under test is an observation, not a harness failure.
+	defer func() {
+		if pv := recover(); pv != nil {
+			obs, herr = hpObs{Ret: fmt.Sprintf("panic: %v", pv), Recs: []hpRec{}}, nil
+		}
+	}()
 	obs = hpObs{Ret: "none"}
 	w.raw = nil
 	typ := opStr(op[0])
